@@ -5,7 +5,7 @@ import BSModel.Model.Depth
     c11 depth <new|old> <rootkx> <midname> <k> (<op>:<recv>:<linked>)*k <event>*
         the accounting of each <op> on the tree the events describe; reply: k numbers
 
-    event  := o<name>.<attrs>.<kx>.<void> | c | t<text id>
+    event  := o<name>.<attrs>.<kx>.<void> | c | ci (closed implicitly: no end tag in the markup) | t<text id>
     recv   := r (the root object: the BeautifulSoup object, or the builder-less root tag) | <k> (the k-th tag below the
               root in document order, 0 = the first)
     rootkx := 1 when the root was made with a builder (a BeautifulSoup object), 0 for a builder-less root tag
@@ -38,7 +38,7 @@ def buildStep (st : Option (List Frame)) (tok : String) : Option (List Frame) :=
   match st with
   | none => none
   | some fs =>
-    if tok == "c" then
+    if tok == "c" || tok == "ci" then
       match fs with
       | f :: g :: rest => some (addKid (.tag f.name f.attrs f.kx f.void f.kidsRev.reverse) (g :: rest))
       | _ => none
@@ -55,19 +55,33 @@ def buildTree (rootkx : Bool) (toks : List String) : Option Node :=
   | some [f] => some (.tag f.name f.attrs f.kx f.void f.kidsRev.reverse)
   | _ => none
 
+/-- the tokenizer events of the MARKUP the harness parsed: `ci` marks an end tag that is missing from it -/
+def toksToEvs : List String → List Nat → List Ev
+  | [], _ => []
+  | tok :: rest, open_ =>
+    if tok == "c" then
+      match open_ with
+      | n :: up => (if n == 0 then [] else [.close (n - 1)]) ++ toksToEvs rest up     -- 0 = a void tag (closed at once)
+      | [] => toksToEvs rest []
+    else if tok == "ci" then toksToEvs rest (open_.drop 1)
+    else if tok.startsWith "t" then .text :: toksToEvs rest open_
+    else match nat4 (tok.drop 1).toString with
+      | some (n, _, _, v) => .open n (v == 1) :: toksToEvs rest ((if v == 1 then 0 else n + 1) :: open_)
+      | none => toksToEvs rest open_
+
 def preNames : Names := ⟨fun n => n == 6, fun n => n == 7⟩     -- harness codes: 6 = pre, 7 = rt
 
 def q0 : Query := ⟨none, false, false, none, false⟩
 
 /-- the harness' operation names -/
-def opDepth (cfg : Cfg) (op : String) (linked : Bool) (root : Loc) (l : Loc) (midName : Nat) : Option Nat :=
+def opDepth (cfg : Cfg) (op : String) (linked : Bool) (root : Loc) (l : Loc) (midName : Nat) (evs : List Ev) : Option Nat :=
   let parent : Loc := ⟨l.anc.drop 1, [], .tag 0 0 (l.anc.headD true) false l.sibs⟩
   let fresh : Loc := ⟨[], [], .tag 8 0 (kxOf root.node) false []⟩
   let s : Loc := ⟨[], [], .str 0⟩
   let allNodes := (descs root.anc root.node).map (·.node)
   let big := 1000000000
   match op with
-  | "parse" | "parse_bytes" | "parse_strainer" => some (parseDepth preNames big (toEventsL (kidsOf root.node)))
+  | "parse" | "parse_bytes" | "parse_strainer" => some (parseDepth preNames big evs)
   | "decode" | "decode_html" | "decode_fn" | "decode_mid" | "decode_inner" => some (decodeDepth cfg l)
   | "encode" | "encode_inner" => some (encodeDepth cfg l)
   | "prettify" | "prettify_enc" => some (prettifyDepth cfg l)
@@ -106,7 +120,8 @@ def opDepth (cfg : Cfg) (op : String) (linked : Bool) (root : Loc) (l : Loc) (mi
     some (call (findAxisDepth cfg { q0 with name := some 99 } allNodes))
   | "descendants" => some (descGenDepth l)
   | "next_elements" | "previous_elements" | "parents" => some (call (loop0 allNodes))
-  | "extract_inner" | "extract_mid" | "extract_top" => some (extractDepth l)
+  | "extract_inner" | "extract_mid" | "extract_top" | "extract_last_child" => some (extractDepth l)
+  | "replace_last_child" => some (replaceWithDepth parent l [s])
   | "decompose_top" | "decompose_mid" => some (decomposeDepth l)
   | "clear_top" => some (clearDepth l false)
   | "clear_decompose" => some (clearDepth l true)
@@ -126,14 +141,14 @@ def opDepth (cfg : Cfg) (op : String) (linked : Bool) (root : Loc) (l : Loc) (mi
   | _ => none
 
 /-- `<op>:<recv>:<linked>` -/
-def oneOp (cfg : Cfg) (root : Loc) (tags : List Loc) (midName : Nat) (spec : String) : String :=
+def oneOp (cfg : Cfg) (root : Loc) (tags : List Loc) (midName : Nat) (evs : List Ev) (spec : String) : String :=
   match spec.splitOn ":" with
   | [op, recv, linked] =>
     let loc : Option Loc := if recv == "r" then some root else tags[recv.toNat!]?
     match loc with
     | none => "bad-recv"
     | some l =>
-      match opDepth cfg op (linked == "1") root l midName with
+      match opDepth cfg op (linked == "1") root l midName evs with
       | some d => toString d
       | none => "bad-op"
   | _ => "bad-spec"
@@ -148,7 +163,7 @@ def handle : List String → String
     | some rootNode =>
       let root : Loc := ⟨[], [rootNode], rootNode⟩
       let tags := (descs [] rootNode).filter (fun d => isTag d.node)
-      " ".intercalate (specs.map (oneOp cfg root tags midname.toNat!))
+      " ".intercalate (specs.map (oneOp cfg root tags midname.toNat! (toksToEvs (rest.drop k) [])))
   | _ => "bad-op"
 
 end BS.Drv.C11
